@@ -618,13 +618,56 @@ func ruleNextIndexFromTx(c *report.Ctx) {
 	if na == nil || getCN == nil || child == nil {
 		return
 	}
+	// the derivation may sit in a helper of the keystore package that nextAddresses calls: a frame remembers
+	// through which call site a helper was entered, so that its parameters resolve to that site's arguments
+	type frame struct {
+		fn     *ssa.Function
+		site   *ssa.Call // call in parent.fn that entered fn (nil for nextAddresses itself)
+		parent *frame
+	}
+	helper := func(call *ssa.Call) *ssa.Function {
+		g := call.Call.StaticCallee()
+		if g == nil || g.Blocks == nil || g == na {
+			return nil
+		}
+		if pk := an.FuncPkg(g); pk == nil || pk.Path() != pkgKeystore {
+			return nil
+		}
+		if g == getCN {
+			return nil
+		}
+		return g
+	}
+	type site struct {
+		in ssa.Instruction
+		fr *frame
+	}
+	var sites []site
+	var collect func(fr *frame, depth int)
+	collect = func(fr *frame, depth int) {
+		an.Instrs(fr.fn, func(in ssa.Instruction) {
+			call, ok := in.(*ssa.Call)
+			if !ok {
+				return
+			}
+			if call.Call.StaticCallee() == child {
+				sites = append(sites, site{in, fr})
+				return
+			}
+			if g := helper(call); g != nil && depth < 2 {
+				collect(&frame{g, call, fr}, depth+1)
+			}
+		})
+	}
+	collect(&frame{na, nil, nil}, 0)
 	n := 0
-	for _, s := range calls(na, child) {
+	for _, st := range sites {
+		s := st.in
 		arg := an.CallOf(s).Args[1]
 		if _, isConst := arg.(*ssa.Const); isConst {
 			continue
 		}
-		if _, isPar := stripConv(arg).(*ssa.Parameter); isPar {
+		if par, isPar := stripConv(arg).(*ssa.Parameter); isPar && par.Parent() == na {
 			continue // branch selector
 		}
 		if ph, isPhi := arg.(*ssa.Phi); isPhi {
@@ -640,37 +683,64 @@ func ruleNextIndexFromTx(c *report.Ctx) {
 		}
 		n++
 		key := siteKey(na, "Child(nextIndex)", n)
-		seen := map[ssa.Value]bool{}
+		type vk struct {
+			v  ssa.Value
+			fr *frame
+		}
+		seen := map[vk]bool{}
 		var bad []string
 		good := false
-		var walk func(v ssa.Value, d int)
-		walk = func(v ssa.Value, d int) {
-			if v == nil || seen[v] || d > 10 {
+		var walk func(v ssa.Value, fr *frame, d int)
+		walk = func(v ssa.Value, fr *frame, d int) {
+			if v == nil || seen[vk{v, fr}] || d > 14 {
 				return
 			}
-			seen[v] = true
+			seen[vk{v, fr}] = true
 			switch x := v.(type) {
 			case *ssa.Phi:
 				for _, e := range x.Edges {
-					walk(e, d+1)
+					walk(e, fr, d+1)
 				}
 			case *ssa.BinOp:
-				walk(x.X, d+1)
-				walk(x.Y, d+1)
+				walk(x.X, fr, d+1)
+				walk(x.Y, fr, d+1)
 			case *ssa.Const:
 			case *ssa.Convert:
-				walk(x.X, d+1)
+				walk(x.X, fr, d+1)
+			case *ssa.Parameter:
+				// a helper's parameter: continue with the argument at the site the helper was entered through
+				if fr.site != nil && x.Parent() == fr.fn {
+					for i, q := range fr.fn.Params {
+						if q == x && i < len(fr.site.Call.Args) {
+							walk(fr.site.Call.Args[i], fr.parent, d+1)
+							return
+						}
+					}
+				}
+				bad = append(bad, p.Desc(v))
 			case *ssa.Extract:
-				if call, ok := x.Tuple.(*ssa.Call); ok && call.Call.StaticCallee() == getCN {
-					good = true
-					return
+				if call, ok := x.Tuple.(*ssa.Call); ok {
+					if call.Call.StaticCallee() == getCN {
+						good = true
+						return
+					}
+					if g := helper(call); g != nil {
+						// the index a helper hands back: every value it can return at that position
+						sub := &frame{g, call, fr}
+						for _, b := range g.Blocks {
+							if r, ok := b.Instrs[len(b.Instrs)-1].(*ssa.Return); ok && x.Index < len(r.Results) {
+								walk(an.RetOperand(r, x.Index), sub, d+1)
+							}
+						}
+						return
+					}
 				}
 				bad = append(bad, p.Desc(v))
 			default:
 				bad = append(bad, p.Desc(v))
 			}
 		}
-		walk(arg, 0)
+		walk(arg, st.fr, 0)
 		if good && len(bad) == 0 {
 			c.OK(key, "index originates from getChildNum(account bucket of this transaction)", posOf(c, s))
 		} else {
